@@ -3,6 +3,18 @@
 HOOK_COMMITS = []
 
 CHECKS = {
+    "C01": {
+        "test": "TestVerif_C01",
+        "level": "exploration",
+        "technique": "property-based testing (rapid): generated Add/Remove/Flush/Search histories against a brute-force float64 k-NN reference model",
+        "level_text": "Generated-input search against a reference model: every search of every generated history (dims 1..64, 3 metrics, k in Z, thresholds incl. exact stored distances, id restrictions incl. absent ids, failing adds) is compared with exact float64 k-NN over the model's live set using the tie-tolerant two-directional comparison of DESIGN 3.3. Sampling, not exhaustive.",
+        "level_note": "Trusts float64 arithmetic as reference and the stated float32 tolerance model (zero tolerance on small-integer data under the L2 family); ids are distinct and non-zero as the property states.",
+        "quick": {"checks": 3000, "shards": 1, "timeout": 600},
+        "thorough": {"checks": 25000, "shards": 16, "timeout": 3000},
+        "rule": "rapid-generated histories of 1..60 ops (add / failing add / remove live|removed|unknown / flush / search / failing search) over 5 vector flavours; non-trivial = contains a search that returned >= 1 hit while truncation by k, an unflushed removal, the id restriction or the threshold excluded at least one resident vector; distinct by FNV-64 of the case JSON",
+        "oracle": "brute-force k-NN in float64 over the model's live set (order, per-id score, uniqueness, count, nothing-better-left-out, rank-wise score multiset); Remove error iff id not live; failing Add/search must error",
+        "assumptions": ["distinct non-zero ids (property's domain)", "float32 accumulation error model of DESIGN 3.2"],
+    },
     "C18": {
         "test": "TestVerif_C18",
         "level": "exploration",
